@@ -30,7 +30,7 @@ fn random_op<const L: usize>(rng: &mut Sm, b: &OrderBook<L>, pm: &PriceModel, fa
             Some(i) => {
                 let cur = b.order(i).vol;
                 let p = if rng.chance(1, 2) { None } else { Some(pm.price(rng)) };
-                let nv = match rng.below(4) { 0 => None, 1 => Some(cur.saturating_sub(1).max(1)), 2 => Some(cur.max(1)), _ => Some(cur + 2) };
+                let nv = match rng.below(4) { 0 => None, 1 => Some(cur.saturating_sub(1).max(1)), 2 => Some(cur.max(1)), _ => Some(cur.saturating_add(2)) };
                 Op::Modify(i, p, nv)
             }
             None => Op::SetTime(b.get_time() + 1),
